@@ -85,6 +85,35 @@ class TaggedTimeout(TimeoutError):
     pass
 
 
+class BadRepr:
+    """an argument object whose repr() raises (arguments are opaque to the runtime)"""
+
+    def __repr__(self):
+        raise RuntimeError("no representation available")
+
+
+BADREPR = BadRepr()
+
+
+def realise(v):
+    """JSON argument -> the object handed to adopt / execute"""
+    if v == "$badrepr":
+        return BADREPR
+    if isinstance(v, dict) and "$float" in v:
+        return float(v["$float"])
+    if isinstance(v, dict) and "$bool" in v:
+        return bool(v["$bool"])
+    return v
+
+
+def same_arg(got, want):
+    """exactly the argument supplied: same type, same value (1, True and 1.0 are three different arguments)"""
+    want = realise(want)
+    if want is BADREPR:
+        return got is BADREPR
+    return type(got) is type(want) and got == want and (not isinstance(got, float) or str(got) == str(want))
+
+
 class Value:
     """a returned object with identity"""
 
@@ -105,6 +134,9 @@ def make_outcome(pid, out):
         val = {"zero": 0, "zerof": 0.0, "false": False, "empty": "", "list": [], "tuple": (), "one": 1, "str": "x"}.get(v)
         if v in ("obj", "falsyobj"):
             val = Value(pid, v == "falsyobj")
+        elif v == "excobj":
+            # an exception instance handed back as an ordinary return value (a "last error seen")
+            val = ConnectionResetError("returned, not raised, by %s" % pid)
         OBJ[pid] = val
         return ("return", val)
     if kind == "exc":
@@ -248,18 +280,19 @@ class World:
         cleanup = spec.get("cleanup", {})
         world = self
 
-        def check_args(args, kwargs):
-            exp = spec.get("args")
+        def check_args(args, kwargs, pid=None):
+            exp = world.payloads.get(pid, spec).get("args")
             ok = True
             if exp is not None:
-                ok = list(args) == exp["args"] and kwargs == exp["kwargs"]
+                ok = (len(args) == len(exp["args"]) and all(same_arg(g, w) for g, w in zip(args, exp["args"]))
+                      and sorted(kwargs) == sorted(exp["kwargs"]) and all(same_arg(kwargs[k], w) for k, w in exp["kwargs"].items()))
             return ok
 
         if spec.get("callfail"):
             # the *call* of the payload fails: nothing awaitable is ever produced
             def payload(*args, **kwargs):
                 pid = world.shared_pid(key, spec["pid"])
-                log("start", pid, args_ok=check_args(args, kwargs), fl=fl)
+                log("start", pid, args_ok=check_args(args, kwargs, pid), fl=fl)
                 r = make_outcome(pid, spec["out"])
                 log("body-end", pid, out=outkind(spec["out"]))
                 raise r[1]
@@ -270,7 +303,7 @@ class World:
             async def payload(*args, **kwargs):
                 pid = world.shared_pid(key, spec["pid"])
                 with world.section("aio", pid):
-                    log("start", pid, args_ok=check_args(args, kwargs), fl="aio")
+                    log("start", pid, args_ok=check_args(args, kwargs, pid), fl="aio")
                 try:
                     for act in script:
                         world.sync_section("aio", pid)
@@ -302,6 +335,14 @@ class World:
                     log("body-end", pid, out="none")
                 except asyncio.CancelledError:
                     log("cancel-seen", pid)
+                    for _ in range(spec.get("swallow", 0)):
+                        # takes a cancellation for a wake-up and goes back to a long wait; it only
+                        # gives up when it is cancelled again
+                        log("step", pid, what="swallowed")
+                        try:
+                            await asyncio.sleep(1000)
+                        except asyncio.CancelledError:
+                            continue
                     if cleanup.get("sync"):
                         time.sleep(cleanup["sync"])
                     log("unwound", pid)
@@ -310,7 +351,7 @@ class World:
             async def payload(*args, **kwargs):
                 pid = world.shared_pid(key, spec["pid"])
                 with world.section("trio", pid):
-                    log("start", pid, args_ok=check_args(args, kwargs), fl="trio")
+                    log("start", pid, args_ok=check_args(args, kwargs, pid), fl="trio")
                 try:
                     for act in script:
                         world.sync_section("trio", pid)
@@ -352,7 +393,7 @@ class World:
         else:
             def payload(*args, **kwargs):
                 pid = world.shared_pid(key, spec["pid"])
-                log("start", pid, args_ok=check_args(args, kwargs), fl="thr")
+                log("start", pid, args_ok=check_args(args, kwargs, pid), fl="thr")
                 for act in script:
                     if act[0] == "sleep":
                         time.sleep(act[1])
@@ -384,13 +425,32 @@ class World:
         return payload
 
     # ------------------------------------------------------------ operations
+    def builtin_body(self, spec):
+        """a payload that is a bound method of a built-in object (list.append): the runtime cannot
+        look inside it, and it cannot log - a watcher reports its effect"""
+        box = []
+        pid = spec["pid"]
+
+        def watch():
+            t_end = time.monotonic() + 8
+            while time.monotonic() < t_end and not box:
+                time.sleep(0.002)
+            if box:
+                log("start", pid, args_ok=box == [pid], fl="thr")
+                log("body-end", pid, out="none")
+        threading.Thread(target=watch, daemon=True).start()
+        return box.append
+
     def adopt(self, pid, rid, ctx="outside"):
         spec = self.payloads[pid]
-        body = self.body(spec, rid)
+        body = self.body(spec, rid) if not spec.get("builtin") else self.builtin_body(spec)
         a = spec.get("args") or {"args": [], "kwargs": {}}
+        if spec.get("builtin"):
+            a = {"args": [pid], "kwargs": {}}
         log("adopt-call", pid, fl=spec["fl"], ctx=ctx, rid=rid)
         try:
-            r = self.runner(rid).adopt(body, *a["args"], flavour=FLAV[spec["fl"]], **a["kwargs"])
+            r = self.runner(rid).adopt(body, *[realise(x) for x in a["args"]], flavour=FLAV[spec["fl"]],
+                                       **{k: realise(v) for k, v in a["kwargs"].items()})
             log("adopt-return", pid, result="none" if r is None else "value")
         except BaseException as e:
             log("adopt-error", pid, etype=type(e).__name__)
@@ -401,7 +461,8 @@ class World:
         a = spec.get("args") or {"args": [], "kwargs": {}}
         log("exec-call", pid, fl=spec["fl"], ctx=ctx, rid=rid)
         try:
-            r = self.runner(rid).execute(body, *a["args"], flavour=FLAV[spec["fl"]], **a["kwargs"])
+            r = self.runner(rid).execute(body, *[realise(x) for x in a["args"]], flavour=FLAV[spec["fl"]],
+                                         **{k: realise(v) for k, v in a["kwargs"].items()})
             same = r is OBJ.get(pid) if pid in OBJ else r is None
             log("exec-return", pid, how="return", same=same)
         except BaseException as e:
@@ -495,7 +556,13 @@ class World:
                     th.start()
                     th.join(st[2] if len(st) > 2 else 1.0)
                     if th.is_alive():
+                        # it was let in (legitimate only if the active run had just ended): end it
+                        # again so that the scenario can go on
                         log("accept-admitted", None, rid=rid, concurrent=True)
+                        log("shutdown-call", None, rid=rid, ctx="cleanup")
+                        self.runner(rid).shutdown()
+                        log("shutdown-return", None, rid=rid)
+                        th.join(5)
                 elif k == "threads":
                     # several controller scripts in parallel threads
                     ths = [threading.Thread(target=self.control, args=(sub, rid_default), daemon=True) for sub in st[1]]
@@ -584,6 +651,10 @@ def main():
         except BaseException as e:
             log("accept-end", None, rid=rid, result=type(e).__name__, causes=describe(e), dur=time.monotonic() - t)
         ctl.join(run.get("join", 3))
+        # what a user may still do with a runner that has ended (a second shutdown, ...)
+        if run.get("after"):
+            log("after-begin", None, rid=rid)
+            world.control(run["after"], rid)
         time.sleep(run.get("linger", 0.25))      # late steps of payloads would show up here
         log("linger-over", None, rid=rid)
     dump_and_exit(0)
